@@ -14,13 +14,13 @@ TOK = ('t_stat', 't_remove', 't_create')
 WINDOWS = ['W_BothSawAbsent', 'W_ThreeSawAbsent', 'W_BothSawStale', 'W_ExclLost', 'W_RemovedNew', 'W_RemoveMissing', 'W_StatSeesNew',
            'W_TwoAcquirers', 'W_ThreeAcquirers', 'W_HolderLostToken', 'W_TwoSidecars', 'W_GoUnderSidecar', 'W_StaleLoserAfterWinner',
            'W_StatFailed', 'W_RemoveFailed', 'W_CreateFailed', 'W_KilledBeforeRemove', 'W_KilledBeforeCreate', 'W_KilledThenAcquired',
-           'W_GhostCreateLost']
+           'W_GhostCreateLost', 'W_SpawnFailed']
 # windows that only exist with a stale token present (the documented, tolerated race)
 STALE_ONLY = {'W_BothSawStale', 'W_RemovedNew', 'W_RemoveMissing', 'W_TwoAcquirers', 'W_ThreeAcquirers', 'W_HolderLostToken', 'W_StaleLoserAfterWinner',
               'W_RemoveFailed', 'W_KilledBeforeRemove'}
 GHOST_ONLY = {'W_GhostCreateLost'}
-FAULT_ONLY = {'W_StatFailed', 'W_RemoveFailed', 'W_CreateFailed', 'W_KilledBeforeRemove', 'W_KilledBeforeCreate', 'W_KilledThenAcquired'}
-SAFETY = ['TypeOK', 'SidecarSeesMarker', 'NoGrandchild', 'NoChildWhenOff', 'ChildOnlyIfNeeded', 'AtMostOneAcquire', 'HolderKeepsToken', 'OnlyApplicationsAcquire',
+FAULT_ONLY = {'W_SpawnFailed', 'W_StatFailed', 'W_RemoveFailed', 'W_CreateFailed', 'W_KilledBeforeRemove', 'W_KilledBeforeCreate', 'W_KilledThenAcquired'}
+SAFETY = ['TypeOK', 'SidecarSeesMarker', 'FreshTokenStays', 'NoGrandchild', 'NoChildWhenOff', 'ChildOnlyIfNeeded', 'AtMostOneAcquire', 'HolderKeepsToken', 'OnlyApplicationsAcquire',
           'SequentialAgreesWithTable', 'PairAgreesWithTable']
 ALL_TOKENS = ['absent', 'fresh', 'stale', 'ghost']
 
@@ -132,7 +132,7 @@ def concretize(rid, st, dealer, rng, k):
         return None
     marker = row['marker']
     dbg = ext['dbg']
-    plain = row['token'] == 'absent' and dbg == 'absent'
+    plain = row['token'] == 'absent' and dbg == 'absent' and ext['startFail'] == 'none'
     mv = dealer.deal('marker', marker)
     tv = dealer.deal('token', row['token'])
     want_bare = plain and row['mode'] == 'local' and row['localOK'] and k % 7 == 0    # a machine that never ran telemetry
@@ -150,11 +150,11 @@ def concretize(rid, st, dealer, rng, k):
     goes = pred['launched'] > pred['sidecars']
     calls = ext['calls']
     kind = 'row'
-    if calls > 1 and k % 2 == 1 and not (row['crash'] and goes) and not ext['appCrash']:
+    if calls > 1 and k % 2 == 1 and not (row['crash'] and goes) and not ext['appCrash'] and ext['startFail'] != 'noexe':
         kind = 'seq'          # as many processes, one after the other
     via = 'xdg' if nocfg else ['xdg', 'home', 'tdir'][k % 3]
     return dict(id=rid, kind=kind, marker=marker, crash=row['crash'], upload=row['upload'], mode=row['mode'], token=row['token'],
-                localOK=row['localOK'], calls=calls, dbg=dbg, leak=ext['leak'], appCrash=ext['appCrash'],
+                localOK=row['localOK'], calls=calls, dbg=dbg, leak=ext['leak'], appCrash=ext['appCrash'], startFail=ext['startFail'],
                 markerText=marker_text(mv), markerSet=mv['set'], modeKind=modev['kind'], modeText=mode_text(modev) if modev['kind'] == 'text' else '',
                 tokenKind=tv['kind'], tokenAge=tv['age'], localKind=lv['kind'], cfgVia=via, fancy=(k % 4 == 3), upvarText=upvar,
                 cfgUpload=cfg_upload, entry=('maybe' if k % 3 == 2 else 'start'), hold=bool(row['crash'] and goes), holdN=pred['launched'] - pred['sidecars'],
@@ -208,7 +208,7 @@ def run(ctx):
     # ------------------------------------------------------------------ TLC
     jobs, meta = [], []
     tcfg_table = ('INIT Init\nNEXT Next\nCONSTANT AllExtras = %s\nINVARIANTS RowOK ChildNeedsApplication UploadImpliesChild OffWritesNothing '
-                  'MarkedWritesNoToken CrashAloneSuffices OneTokenPerSequence\nCHECK_DEADLOCK FALSE\n' % ctx.pick('FALSE', 'TRUE'))
+                  'MarkedWritesNoToken CrashAloneSuffices OneTokenPerSequence FailedStartLaunchesNobody\nCHECK_DEADLOCK FALSE\n' % ctx.pick('FALSE', 'TRUE'))
     jobs.append((('SidecarTable',), dict(dump=True, cfg_text=tcfg_table, label='SidecarTable (rows x circumstances)', workers=1)))
     meta.append('table')
     jobs.append((('SidecarConcrete',), dict(dump=True, label='SidecarConcrete (shapes)', workers=1)))
@@ -362,7 +362,7 @@ def run(ctx):
             rid += 1
             tv = dealer.deal('token', tok, lambda v: not v['silent'])
             rows.append(dict(id=rid, kind='race', marker='unset', crash=False, upload=True, mode='on', token=tok, localOK=True, calls=1, dbg='absent',
-                             leak=False, appCrash=False, markerText='', markerSet=False, modeKind='text', modeText='on 2020-01-01',
+                             leak=False, appCrash=False, startFail='none', markerText='', markerSet=False, modeKind='text', modeText='on 2020-01-01',
                              tokenKind=tv['kind'], tokenAge=tv['age'], localKind='exists', cfgVia='xdg', fancy=False, upvarText='unset', cfgUpload=True,
                              entry='start', hold=False, n=ctx.pick(6, 10), silent=False, shapes={'token': tv}))
     unused = dealer.total() - len(dealer.used)
@@ -383,9 +383,9 @@ def run(ctx):
             raise Infra('row %d: %d of %d started processes logged their start\n%s' % (x['id'], o['rootsLogged'], o['n'], json.dumps(o)[:1500]))
         if o['timedOut']:
             ctx.warn('row %d (%s): processes still alive after 20 s were killed' % (x['id'], row_text(x)))
-        y = {k: o[k] for k in ('kind', 'id', 'marker', 'crash', 'upload', 'mode', 'token', 'localOK', 'sidecars', 'uploaders', 'nested', 'unmarked',
+        y = {k: o[k] for k in ('kind', 'id', 'marker', 'crash', 'upload', 'mode', 'token', 'localOK', 'sidecars', 'uploaders', 'nested', 'unmarked', 'freshRemoved',
                                'launched', 'acquired', 'wrote', 'fatal')}
-        y.update({k: x[k] for k in ('calls', 'dbg', 'leak', 'appCrash')})
+        y.update({k: x[k] for k in ('calls', 'dbg', 'leak', 'appCrash', 'startFail')})
         lines.append(y)
         order.append(x)
     ctx.cov['evaluations'] += len(lines)
@@ -402,11 +402,11 @@ def run(ctx):
     b01 = lambda b: '1' if b else '0'
     for (idx, clause) in sorted(tuple(b) for b in bad):
         x, o = order[idx - 1], got[order[idx - 1]['id']]
-        text = ('row %d (%s; kind=%s n=%d calls=%d dbg=%s leak=%s appCrash=%s; marker %r, mode file %s %r, token %s age %d s, local %s, via %s, entry %s): '
-                '%s is false on the real processes: sidecars=%d uploaders=%d nested=%d unmarked=%d launched=%d acquired=%s wrote=%s; changed: %s; process log: %s' % (
-                    x['id'], row_text(x), x['kind'], o['n'], x['calls'], x['dbg'], x['leak'], x['appCrash'], x['markerText'] if x['markerSet'] else None,
+        text = ('row %d (%s; kind=%s n=%d calls=%d dbg=%s leak=%s appCrash=%s startFail=%s; marker %r, mode file %s %r, token %s age %d s, local %s, via %s, entry %s): '
+                '%s is false on the real processes: sidecars=%d uploaders=%d nested=%d unmarked=%d freshRemoved=%s launched=%d acquired=%s wrote=%s; changed: %s; process log: %s' % (
+                    x['id'], row_text(x), x['kind'], o['n'], x['calls'], x['dbg'], x['leak'], x['appCrash'], x['startFail'], x['markerText'] if x['markerSet'] else None,
                     x['modeKind'], x['modeText'], x['tokenKind'], x['tokenAge'], x['localKind'], x['cfgVia'], x['entry'], clause,
-                    o['sidecars'], o['uploaders'], o['nested'], o['unmarked'], o['launched'], o['acquired'], o['wrote'], (o['changed'] or [])[:8],
+                    o['sidecars'], o['uploaders'], o['nested'], o['unmarked'], o['freshRemoved'], o['launched'], o['acquired'], o['wrote'], (o['changed'] or [])[:8],
                     json.dumps([(e['pid'], e['lineage'], e['marker'], e['upvar'], e['role']) for e in (o['entries'] or [])][:8])))
         if x['silent']:
             # a shape the documentation says nothing about: not a violation
@@ -422,8 +422,8 @@ def run(ctx):
             sig = 'C16:%s:race:token=%s' % (clause, x['token'])
         else:
             sig = 'C16:%s:marker=%s:mode=%s:crash=%s:upload=%s:token=%s' % (clause, x['marker'], x['mode'], b01(x['crash']), b01(x['upload']), x['token'])
-            if x['calls'] > 1 or x['leak'] or x['dbg'] != 'absent' or x['appCrash']:
-                sig += ':calls=%d:dbg=%s:leak=%s:appCrash=%s' % (x['calls'], x['dbg'], b01(x['leak']), b01(x['appCrash']))
+            if x['calls'] > 1 or x['leak'] or x['dbg'] != 'absent' or x['appCrash'] or x['startFail'] != 'none':
+                sig += ':calls=%d:dbg=%s:leak=%s:appCrash=%s:startFail=%s' % (x['calls'], x['dbg'], b01(x['leak']), b01(x['appCrash']), x['startFail'])
         ctx.violation(sig, {'row': x, 'observed': o}, text)
     ndiv = nsilent
     for idx in sorted(diverged):
@@ -433,9 +433,9 @@ def run(ctx):
         ndiv += 1
         if ndiv <= 8:
             st = bystate.get(x['id'])
-            ctx.warn('MODEL-DIVERGENCE row %d (%s; kind=%s calls=%d dbg=%s leak=%s appCrash=%s; marker %r, mode file %s %r, token %s age %d, local %s, via %s, entry %s): '
+            ctx.warn('MODEL-DIVERGENCE row %d (%s; kind=%s calls=%d dbg=%s leak=%s appCrash=%s startFail=%s; marker %r, mode file %s %r, token %s age %d, local %s, via %s, entry %s): '
                      'observed sidecars=%d uploaders=%d launched=%d acquired=%s wrote=%s fatal=%s changed=%s, table says %s' % (
-                         x['id'], row_text(x), x['kind'], x['calls'], x['dbg'], x['leak'], x['appCrash'], x['markerText'] if x['markerSet'] else None,
+                         x['id'], row_text(x), x['kind'], x['calls'], x['dbg'], x['leak'], x['appCrash'], x['startFail'], x['markerText'] if x['markerSet'] else None,
                          x['modeKind'], x['modeText'], x['tokenKind'], x['tokenAge'], x['localKind'], x['cfgVia'], x['entry'],
                          o['sidecars'], o['uploaders'], o['launched'], o['acquired'], o['wrote'], o['fatal'], (o['changed'] or [])[:6],
                          json.dumps(st['pred'], default=list) if st else '(race)'))
